@@ -6,7 +6,7 @@ From RU Require Import Base.Prelude Base.Utf8 Base.Utf8Facts Model.AsciiSet Gen.
   Model.PercentEncoding Model.HostT Model.UrlRecord Model.Parser Model.WF
   Proofs.ListN Proofs.C14_Set Proofs.C14_Enc Proofs.C14_Views Proofs.C02_Enc Proofs.C02_Parts
   Proofs.C02_Opaque Proofs.C02_Path Proofs.C02_PathL1 Proofs.C02_Reach Proofs.C16_RT Proofs.C02_AuthParts
-  Proofs.C02_Auth Proofs.C02_AuthWf.
+  Proofs.C02_Auth Proofs.C02_AuthWf Proofs.C02_PathSp Proofs.C02_AuthSp.
 Open Scope N_scope.
 Open Scope list_scope.
 
@@ -39,6 +39,27 @@ Qed.
 Definition canon_auth (hp hpo : list N -> result host) (hd : host -> list N) (st : scheme_type) (u : url) : Prop :=
   exists sch ui h pt p q f, auth_ok hp hpo hd st sch ui h pt p q f /\ u = auth_url hd sch ui h pt p q f.
 
+(* class (iv): a special scheme other than file (any number of '/' and '\' may follow the colon) *)
+Definition special_input (input : list N) : bool :=
+  match parse_scheme CUrlParser (input_new_trim_c0 input) with
+  | Some (sch, _) => scheme_type_eqb (scheme_type_of sch) STSpecialNotFile
+  | None => false
+  end.
+
+Lemma special_input_inv input : special_input input = true ->
+  exists sch rem, parse_scheme CUrlParser (input_new_trim_c0 input) = Some (sch, rem)
+    /\ scheme_type_of sch = STSpecialNotFile.
+Proof.
+  unfold special_input. destruct (parse_scheme CUrlParser (input_new_trim_c0 input)) as [[sch rem]|]; [|discriminate].
+  intros H. exists sch, rem. split; [reflexivity|]. destruct (scheme_type_of sch); try discriminate. reflexivity.
+Qed.
+
+(* canonical form of class (iv): as canon_auth for the type STSpecialNotFile (so the host is never empty and
+   the query is clean for SPECIAL_QUERY), and the path is "/" seg "/" ... "/" last with no '\' in any segment *)
+Definition canon_special (hp hpo : list N -> result host) (hd : host -> list N) (u : url) : Prop :=
+  exists sch ui h pt p q f, auth_ok hp hpo hd STSpecialNotFile sch ui h pt p q f /\ pth_ok_sp p
+                            /\ u = auth_url hd sch ui h pt p q f.
+
 Section Main.
 Variable dbg : bool.
 Variable hp hpo : list N -> result host.
@@ -67,6 +88,30 @@ Qed.
 Theorem reparse_auth ovr input u : host_above hp hpo hd -> usv_list input -> auth_input input = true ->
   parse_url dbg hp hpo hd ovr None input = POk u -> Fixpoint_of_reparse dbg hp hpo hd u.
 Proof. intros HAb Hu Hc Hp. apply L3_auth. exact (proj1 (L1_auth ovr input u HAb Hu Hc Hp)). Qed.
+
+(* ================= class (iv): special non-file scheme, no base ================= *)
+Theorem L1_special input u : host_above hp hpo hd -> usv_list input -> special_input input = true ->
+  parse_url dbg hp hpo hd None None input = POk u ->
+  canon_special hp hpo hd u /\ wf_b u = true /\ ascii (ser u) /\ cannot_be_a_base u = Some false.
+Proof.
+  intros HAb Hu Hc Hp. destruct (special_input_inv input Hc) as (sch & rem & Hs & Hst).
+  destruct (parse_special_out dbg hp hpo hd HRT HAb input sch rem u Hu Hs Hst Hp) as (ui & h & pt & p & q & f & K & Kp & ->).
+  destruct (auth_url_wf hp hpo hd HRT _ _ _ _ _ _ _ _ K) as [W C].
+  split; [exists sch, ui, h, pt, p, q, f; split; [exact K | split; [exact Kp | reflexivity]]|]. split; [exact W|]. split; [|exact C].
+  apply okc_ascii. exact (auth_ser_okc hp hpo hd HRT _ _ _ _ _ _ _ _ K).
+Qed.
+
+Theorem L3_special u : canon_special hp hpo hd u -> Fixpoint_of_reparse dbg hp hpo hd u.
+Proof.
+  intros (sch & ui & h & pt & p & q & f & K & Kp & ->).
+  unfold Fixpoint_of_reparse, reparse. cbn [ser auth_url].
+  rewrite utf8_lossy_ascii by (apply okc_ascii; exact (auth_ser_okc hp hpo hd HRT _ _ _ _ _ _ _ _ K)).
+  exact (reparse_special_form dbg hp hpo hd HRT sch ui h pt p q f K Kp).
+Qed.
+
+Theorem reparse_special input u : host_above hp hpo hd -> usv_list input -> special_input input = true ->
+  parse_url dbg hp hpo hd None None input = POk u -> Fixpoint_of_reparse dbg hp hpo hd u.
+Proof. intros HAb Hu Hc Hp. apply L3_special. exact (proj1 (L1_special input u HAb Hu Hc Hp)). Qed.
 
 End Main.
 
@@ -132,3 +177,52 @@ Proof.
     exact (proj2 (ex_text_ok _ Hn Hf)). }
   split; [split; [exact G | split; [exact G | split; reflexivity]] | split; exact GA].
 Qed.
+
+(* ================= the statements under HostOK (C02_Reach.v) ================= *)
+Theorem reparse_auth_HostOK dbg hp hpo hd ovr input u :
+  HostOK hp hpo hd -> host_above hp hpo hd -> usv_list input -> auth_input input = true ->
+  parse_url dbg hp hpo hd ovr None input = POk u ->
+  Fixpoint_of_reparse dbg hp hpo hd u /\ wf_b u = true /\ canon_auth hp hpo hd STNotSpecial u.
+Proof.
+  intros HOK HAb Hu Hc Hp. pose proof (HostOK_RT _ _ _ HOK) as HRT.
+  destruct (L1_auth dbg hp hpo hd HRT ovr input u HAb Hu Hc Hp) as (C & W & _).
+  split; [exact (L3_auth dbg hp hpo hd HRT u C) | split; assumption].
+Qed.
+
+Theorem reparse_special_HostOK dbg hp hpo hd input u :
+  HostOK hp hpo hd -> host_above hp hpo hd -> usv_list input -> special_input input = true ->
+  parse_url dbg hp hpo hd None None input = POk u ->
+  Fixpoint_of_reparse dbg hp hpo hd u /\ wf_b u = true /\ canon_special hp hpo hd u.
+Proof.
+  intros HOK HAb Hu Hc Hp. pose proof (HostOK_RT _ _ _ HOK) as HRT.
+  destruct (L1_special dbg hp hpo hd HRT input u HAb Hu Hc Hp) as (C & W & _).
+  split; [exact (L3_special dbg hp hpo hd HRT u C) | split; assumption].
+Qed.
+
+(* ================= non-vacuity ================= *)
+Definition ex_parse (s : string) : pres url := parse_url true ex_hp ex_hp ex_hd None None (B s).
+Definition ex_result (s : string) (expect : string) (se ue hs he ps : N) (pt : option N) : bool :=
+  match ex_parse s with
+  | POk u => list_eqb (ser u) (B expect) && (scheme_end u =? se) && (username_end u =? ue) && (host_start u =? hs)
+             && (host_end u =? he) && (path_start u =? ps) && opt_eqb (port u) pt
+             && match parse_url true ex_hp ex_hp ex_hd None None (ser u) with POk v => url_eqb v u | _ => false end
+  | _ => false
+  end.
+
+Lemma auth_examples :
+  auth_input (B "a://u:p@h.x:81/a/../b?q#f") = true /\ auth_input (B "a:///p") = true
+  /\ auth_input (B "a://@h") = true /\ auth_input (B "a:/p") = false /\ auth_input (B "http://h") = false
+  /\ ex_result "a://u:p@h.x:81/a/../b?q#f" "a://u:p@h.x:81/b?q#f" 1 5 8 11 14 (Some 81) = true
+  /\ ex_result "a:///p" "a:///p" 1 4 4 4 4 None = true
+  /\ ex_result "a://@h" "a://h" 1 4 4 5 5 None = true
+  /\ ex_result "a://h:/" "a://h/" 1 4 4 5 5 None = true.
+Proof. vm_compute. repeat split. Qed.
+
+Lemma special_examples :
+  special_input (B "HTTP:\\u@H.x:80\a\..\b?q'#f") = true /\ special_input (B "ws:h") = true
+  /\ special_input (B "file://h/") = false /\ special_input (B "a://h") = false
+  /\ ex_result "HTTP:\\u@H.x:80\a\..\b?q'#f" "http://u@H.x/b?q%27#f" 4 8 9 12 12 None = true
+  /\ ex_result "ws:h" "ws://h/" 2 5 5 6 6 None = true
+  /\ ex_result "https://h:8443/%2e/x\" "https://h:8443/x/" 5 8 8 9 14 (Some 8443) = true
+  /\ match ex_parse "http://" with PErr EmptyHost => true | _ => false end = true.
+Proof. vm_compute. repeat split. Qed.
